@@ -1,7 +1,20 @@
+/-
+  C02 on the reactor model: byte accounting of every connection is preserved by every
+  accepted round, i.e. for EVERY sequence of environment decisions (events, kernel results
+  incl. short reads/writes, EAGAIN and errors, handler programs, task order) that the real loop
+  can exhibit and the acceptor recognises.
+-/
 import Gnet.Spec.ReactorSpec
+import Gnet.Proofs.ReactorBytes
 namespace Gnet.Props.C02
 open Gnet.Reactor
 
-theorem init_names (cfg : Cfg) : NamesNodup { cfg := cfg } := by simp [NamesNodup]
+/-- outbound integrity and ordering is an invariant of accepted rounds -/
+theorem outbound_integrity (s s' : RState) (toks : List Tok) (hn : NamesNodup s)
+    (h : acceptRound s toks = .ok s') (ho : InvOut s) (hq : Quiet s) : InvOut s' ∧ Quiet s' ∧ NamesNodup s' :=
+  Proofs.ReactorBytes.outbound_integrity s s' toks hn h ho hq
+
+theorem outbound_init (cfg : Cfg) : InvOut { cfg := cfg } :=
+  Proofs.ReactorBytes.outbound_init cfg
 
 end Gnet.Props.C02
